@@ -47,7 +47,7 @@ func (Engine) Describe(prop string) core.Description {
 			"SetType on a non-empty collection installs a type whose same-named fields keep their definitions",
 			"'well-typed' for Add: the value's Go type is exactly the Go type of the collection's field of that name",
 		}
-		d.Probes = []string{"add-same", "add-narrower", "add-wider", "add-conflicting", "add-wrapped", "add-duplicate-id", "remove-first", "remove-middle", "remove-last", "remove-absent", "remove-duplicate-id", "addattr-duplicate", "settype-nonempty", "caller-set-after-add", "field-added-after-store"}
+		d.Probes = []string{"add-same", "add-narrower", "add-wider", "add-conflicting", "add-wrapped", "add-duplicate-id", "remove-first", "remove-middle", "remove-last", "remove-absent", "remove-duplicate-id", "addattr-duplicate", "settype-nonempty", "caller-set-after-add", "field-added-after-store", "lazy-read-back"}
 	case "C09":
 		d.Real = append(d.Real, "jsonapi.Range, jsonapi.Filter.IsAllowed, jsonapi.Resources, jsonapi.WrapperCollection")
 		d.Stub = append(d.Stub, "reference select -> filter evaluator -> rank check -> page slice (written from the statements of C09/C10)")
@@ -240,6 +240,12 @@ func (s *sim) run() *core.Violation {
 	}
 
 	stop := t.Range(3, maxOps)
+	every := []int{1, 1, 1, 2, 3, 5}[t.Draw(6)]
+	pending := ""
+
+	if every > 1 {
+		s.st.Inc("probe:lazy-read-back")
+	}
 
 	for i := 0; i < maxOps && t.More(stop); i++ {
 		desc, v, skip := s.step()
@@ -253,6 +259,13 @@ func (s *sim) run() *core.Violation {
 
 		s.nops++
 		s.st.Steps++
+		pending = desc
+
+		if s.nops%every != 0 {
+			continue
+		}
+
+		pending = ""
 
 		if v := s.check(desc); v != nil {
 			return v
@@ -266,6 +279,12 @@ func (s *sim) run() *core.Violation {
 			if v := s.rangeQuery(); v != nil {
 				return v
 			}
+		}
+	}
+
+	if pending != "" {
+		if v := s.check(pending); v != nil {
+			return v
 		}
 	}
 
